@@ -195,6 +195,27 @@ def entity_tables(src, rel, emit):
     emit("")
 
 
+def unpretty_tables(src, rel, emit):
+    m = re.search(r"fn is_whitespace\(text: &str\) -> bool \{(.*?)\n\}", src, re.S)
+    if not m:
+        raise TieBroken(f"{rel}: cannot find is_whitespace")
+    mm = re.search(r"text\.chars\(\)\.all\(\|c\| matches!\(c,(.*?)\)\)", re.sub(r"//[^\n]*", "", m.group(1)), re.S)
+    if not mm:
+        raise TieBroken(f"{rel}: is_whitespace is no longer `all(|c| matches!(c, ...))`")
+    ws = []
+    for alt in mm.group(1).split("|"):
+        a = re.fullmatch(CHAR, alt.strip())
+        if not a:
+            raise TieBroken(f"{rel}: is_whitespace alternative not understood: {alt.strip()!r}")
+        ws.append(ord(rust_char_lit(a.group(1))))
+    emit("Definition xml_ws_chars : list N := [%s]." % "; ".join(str(c) for c in ws))
+    m = re.search(r"fn in_preserve_space.*?return value == (\"[^\"]*\");", src, re.S)
+    if not m:
+        raise TieBroken(f"{rel}: in_preserve_space no longer compares the nearest xml:space value with one literal")
+    emit("Definition xml_space_preserve : list N := %s." % coq_str(rust_str_lit(m.group(1))))
+    emit("")
+
+
 def main():
     repo = os.environ.get("VERIF_REPO", "/repo")
     out = sys.argv[1] if len(sys.argv) > 1 else os.path.join(os.path.dirname(__file__), "..", "coq", "Gen", "Tables.v")
@@ -276,34 +297,26 @@ def main():
     emit("Definition html_table_order : list (list (list N)) := [%s]." % "; ".join(a for a, _ in order))
     emit("")
 
-    # --- character level
-    rel = "src/entity.rs"
-    src = read(repo, rel)
-    inputs[rel] = src
-    entity_tables(src, rel, emit)
-
-    # --- white space of remove_insignificant_whitespace
-    rel = "src/unpretty.rs"
-    src = read(repo, rel)
-    inputs[rel] = src
-    m = re.search(r"fn is_whitespace\(text: &str\) -> bool \{(.*?)\n\}", src, re.S)
-    if not m:
-        raise TieBroken(f"{rel}: cannot find is_whitespace")
-    mm = re.search(r"text\.chars\(\)\.all\(\|c\| matches!\(c,(.*?)\)\)", re.sub(r"//[^\n]*", "", m.group(1)), re.S)
-    if not mm:
-        raise TieBroken(f"{rel}: is_whitespace is no longer `all(|c| matches!(c, ...))`")
-    ws = []
-    for alt in mm.group(1).split("|"):
-        a = re.fullmatch(CHAR, alt.strip())
-        if not a:
-            raise TieBroken(f"{rel}: is_whitespace alternative not understood: {alt.strip()!r}")
-        ws.append(ord(rust_char_lit(a.group(1))))
-    emit("Definition xml_ws_chars : list N := [%s]." % "; ".join(str(c) for c in ws))
-    m = re.search(r"fn in_preserve_space.*?return value == (\"[^\"]*\");", src, re.S)
-    if not m:
-        raise TieBroken(f"{rel}: in_preserve_space no longer compares the nearest xml:space value with one literal")
-    emit("Definition xml_space_preserve : list N := %s." % coq_str(rust_str_lit(m.group(1))))
-    emit("")
+    # --- character level and white space: OPTIONAL tables.  The model does not compute with them (its functions are hand-written
+    # and tied to the crate by the correspondence runs); Proofs/EntityTables.v proves the model's functions equal to these tables,
+    # which ties the character-level theorems to the source text as well.  When the source is written in a shape this reader does
+    # not understand, the tables are left out, `src_tables_read` says so, and ./check skips the Props/*src.v files (reporting it).
+    optional_problem = None
+    opt_lines = []
+    try:
+        rel = "src/entity.rs"
+        src = read(repo, rel)
+        inputs[rel] = src
+        entity_tables(src, rel, opt_lines.append)
+        rel = "src/unpretty.rs"
+        src = read(repo, rel)
+        inputs[rel] = src
+        unpretty_tables(src, rel, opt_lines.append)
+    except TieBroken as e:
+        optional_problem = str(e)
+        opt_lines = []
+    emit("Definition src_tables_read : bool := %s." % ("false" if optional_problem else "true"))
+    lines.extend(opt_lines)
 
     text = "\n".join(lines) + "\n"
     os.makedirs(os.path.dirname(out), exist_ok=True)
@@ -316,7 +329,8 @@ def main():
             f.write(text)
     sha = hashlib.sha256("".join(k + "\0" + v for k, v in sorted(inputs.items())).encode()).hexdigest()
     print(json.dumps({"tables_v": os.path.abspath(out), "inputs": sorted(inputs), "inputs_sha256": sha,
-                      "changed": old != text}))
+                      "changed": old != text, "src_tables_read": optional_problem is None,
+                      "src_tables_problem": optional_problem}))
 
 
 if __name__ == "__main__":
